@@ -37,7 +37,8 @@ DECIDES = {
             'sanitiser; graph admission 0 <= F < threshold with finite thresholds',
             'numeric recovery of p'),
     'C10': ('move table = 6 / 26 neighbours up to graph symmetry; every pathfinding method reaches its own handler; per-axis wrapping; '
-            'edge/node attribute names agree between writer and reader; percolation target/tiling from the same mask, strict improvement',
+            'edge/node attribute names agree between writer and reader; percolation target/tiling from the same mask, strict improvement '
+            'or min() keyed on the total energy',
             'cost minimality (networkx), the minmax pruning loop'),
     'C11': ('site->label lookup aligned incl. NOSITE; encoder/decoder radix and role order agree; bin count / minlength / dropped '
             'overflow bin agree; minimum-image distances; dimensionless shell normalisation',
@@ -49,8 +50,9 @@ DECIDES = {
             'mean over atoms of minimum-image steps; corrected trajectory rebuilt in displacement mode with all metadata',
             'idempotence, invariance under injected rigid drift'),
     'C14': ('homogeneity degree of every metric (scaling laws), normal forms of density/molarity/diffusivity/conductivity, unit labels, '
-            'mass-weighted centre of mass, Std variants call and label like their base',
-            'behavioural identities (amplitudes sum to the final distance, Haven ratio one for identical motion)'),
+            'mass-weighted centre of mass, Std variants call and label like their base; speed = first-order difference of the distances '
+            'from the base position along frames started from 0 (increments telescope to the final distance)',
+            'behavioural identities (the partition of the increments into amplitudes, Haven ratio one for identical motion)'),
     'C15': ('only the mode switches write trajectory storage; no in-place write reaches trajectory storage, cached values or public '
             'attributes; derived trajectories are built from mode-explicit accessors with all metadata; metadata copied on slicing',
             'bit-exactness of the mode round trip, pymatgen slicing (stubbed)'),
